@@ -73,6 +73,16 @@ class NT(typing.NamedTuple):
 UNT = collections.namedtuple("UNT", ["a"])
 class TD(typing.TypedDict):
     a: int
+Unit = collections.namedtuple("Unit", ())          # structured classes without any field
+class TUnit(typing.NamedTuple):
+    pass
+class SubUnit(Unit):
+    pass
+class EmptyTD(typing.TypedDict):
+    pass
+@dataclasses.dataclass
+class EmptyDC:
+    pass
 class Plain:
     x: int
     def __init__(self, x: int = 0):
@@ -141,7 +151,7 @@ def catalogue():
                datetime.date, datetime.datetime, datetime.time, datetime.timedelta, re.Pattern, re.Match, enum.Enum, enum.IntEnum,
                collections.deque, collections.defaultdict, collections.OrderedDict, collections.Counter, collections.ChainMap, types.MappingProxyType,
                ipaddress.IPv4Address, ipaddress.IPv6Address, sqlite3.Row, numbers.Number, numbers.Integral, slice, BaseException,
-               m.DC, m.FDC, m.NT, m.UNT, m.TD, m.Plain, m.NoHints, m.Col, m.ICol, m.MyStr, m.MyInt, m.MyList, m.MyDict, m.MyTuple, m.MyDate, m.MyDT,
+               m.DC, m.FDC, m.NT, m.UNT, m.TD, m.Unit, m.TUnit, m.SubUnit, m.EmptyTD, m.EmptyDC, m.Plain, m.NoHints, m.Col, m.ICol, m.MyStr, m.MyInt, m.MyList, m.MyDict, m.MyTuple, m.MyDate, m.MyDT,
                m.MyUUID, m.MyDec, m.MyRow, m.MyRow2, m.MyODict, m.MyDeque, m.MyPath, m.MyTD, m.MyTime, m.MyFrac, m.MyFloat, m.MyBytes, m.MySet, m.MyFSet, m.MyMapping, m.MySeq, m.MyIter, m.Box, m.FromDict, type(iter([])), type(x for x in ())]
     abcs = [cabc.Iterable, cabc.Iterator, cabc.Collection, cabc.Sequence, cabc.MutableSequence, cabc.Set, cabc.MutableSet, cabc.Mapping,
             cabc.MutableMapping, cabc.Hashable, cabc.Sized, cabc.Container, cabc.Reversible, cabc.Generator, cabc.KeysView, cabc.ValuesView,
@@ -360,7 +370,7 @@ def o_enum(x):
 
 def o_structured(x):
     m = sys.modules[MODNAME]
-    yes = {m.DC, m.FDC, m.NT, m.UNT, m.TD, m.Plain, m.NoHints}
+    yes = {m.DC, m.FDC, m.NT, m.UNT, m.TD, m.Unit, m.TUnit, m.SubUnit, m.EmptyTD, m.EmptyDC, m.Plain, m.NoHints}
     if x in yes or (typing.get_origin(x) is tuple and typing.get_args(x) and typing.get_args(x)[-1] is not Ellipsis):
         return True
     if typing.get_origin(x) in (typing.Union, types.UnionType, typing.Literal):
